@@ -8,9 +8,10 @@ from __future__ import annotations
 import itertools
 
 from env import core
+from env.dst import DstWorld
 from env.e2e import E2EWorld
 from xmc import NPROC
-from xmc.engine import Violation, explore_many
+from xmc.engine import Violation, explore, explore_many
 from xmc.report import Run
 
 P = "C15"
@@ -201,8 +202,11 @@ class C15World(E2EWorld):
                 bad("C15.segment_before_metadata", "File-Segment-Recv before any Metadata-Recv")
             # EOF
             eofi = count("eof_recv")
-            want_eof = 1 if (accepted and pdu["T"] == "EOF" and pre_step in EOF_STEPS and er) else 0
-            if len(eofi) != want_eof:
+            # an EOF (cancel) which follows the regular EOF while missing data is re-requested is a new event (it cancels the
+            # transaction); a repeated EOF (no error) there is only acknowledged again
+            eof_event = accepted and pdu["T"] == "EOF" and (pre_step in EOF_STEPS or (pre_step == "WAITING_FOR_MISSING_DATA" and pdu["cond"] != "NO_ERROR"))
+            want_eof = 1 if (eof_event and er) else 0
+            if len(eofi) != want_eof and not (transient and accepted and pdu["T"] == "EOF" and len(eofi) <= (1 if er else 0)):
                 bad("C15.eof_recv", f"{len(eofi)} EOF-Recv indications, expected {want_eof} (switch {er})", enabled=er, want=want_eof)
             # completion
             fins = count("finished")
@@ -226,6 +230,30 @@ class C15World(E2EWorld):
         return v
 
 
+class C15Foreign(DstWorld):
+    """One destination handler; besides the PDUs of its transaction, PDUs of another transaction of the same sender (other
+    sequence number) arrive at any point.  Every *-Recv indication issued by a call must carry the transaction id of the
+    PDU delivered by that call."""
+
+    prop = P
+    name = "DST-C15-FOREIGN"
+    OTHER = (("seq", (7, 2)),)
+    default_alphabet = (("md",), ("fd", 0, 2, 0), ("fd", 2, 2, 0), ("eof", 4, "NO_ERROR", 1), ("tick",), ("ackfin",),
+                        ("pdu", "FD", None, OTHER), ("pdu", "EOF", None, OTHER + (("size", 4),)), ("pdu", "MD", None, OTHER + (("size", 4),)))
+
+    def check(self, st, ev, out):
+        v = []
+        d = out.get("pdu")
+        if not d:
+            return v
+        want = [d["src"][0], d["seq"][0]]
+        for r in self.inds(out):
+            if r["ind"] in ("metadata_recv", "file_segment_recv", "eof_recv") and list(r["tid"]) != want:
+                v.append(Violation(P, "C15.indication_tid", f"{ev} (step {out['pre_step']}): {r['ind']} indication carries transaction id {r['tid']} "
+                                                            f"but the PDU delivered by this call belongs to transaction {want}", ind=r["ind"]))
+        return v
+
+
 def configs(tier):
     out = []
     L = 2
@@ -243,6 +271,10 @@ def configs(tier):
                         ack_limit=2, nak_limit=2, check_limit=2))
     for ind, (mode, closure) in itertools.product(some, (("ack", False), ("unack", True), ("unack", False))):
         out.append(dict(ind=ind, mode=mode, closure=closure, size=2 * L + 1, seg=L, link="ff", cancels=1))
+    # a cancel request at either entity combined with one link fault (e.g. the sender cancels while lost data is re-requested)
+    for ind, nak in itertools.product((some[0], some[3]), ("imm", "def")):
+        out.append(dict(ind=ind, mode="ack", closure=False, nak=nak, size=L + 1, seg=L, link="k", K=1, kinds=("drop", "delay"),
+                        ack_limit=2, nak_limit=2, cancels=1))
     # two consecutive transactions on the same handlers, the second with request-level mode / closure
     for (mode, closure), (m2, c2) in itertools.product((("ack", False), ("unack", True), ("unack", False)), (("ack", False), ("unack", True), ("unack", False))):
         out.append(dict(mode=mode, closure=closure, size=L + 1, seg=L, link="ff", tx2=dict(req_mode=m2, req_closure=c2)))
@@ -261,4 +293,10 @@ def run(tier: str) -> int:
     run_.bounds = {"configs": len(worlds), "switch_settings": 16, "message_lists": ["none", "plain", "orig", "proxy", "both", "all"], "links": ["ff", "k (K=1)", "ff + cancel"]}
     results = explore_many(worlds, procs=NPROC, check_cycles=False, validate_stride=499, validate_terminals=3, n_samples=1, max_states=1_000_000)
     run_.add_all(results)
+    depth = 5 if tier == "quick" else 7
+    for mode, closure in (("ack", False), ("unack", True)):
+        run_.add(explore(C15Foreign(mode=mode, closure=closure, size=4, seg=2, ack_limit=2, nak_limit=2, check_limit=2), procs=NPROC, check_cycles=False,
+                         max_depth=depth, validate_stride=1999, validate_terminals=2, n_samples=1, max_states=1_000_000))
+    run_.cap_hit = False
+    run_.bounds["foreign_pdu_worlds"] = {"depth": depth, "alphabet": [list(map(str, e)) for e in C15Foreign.default_alphabet]}
     return run_.finish(rule="complete reachable graph per configuration; per call the multiset of indications is compared with the PDUs accepted / emitted by that call and the switches")
